@@ -33,7 +33,9 @@ ASSUMPTIONS = ["names are free of '/' and ':' and differ from '.' and '..'",
                "objects belong to a Document (relative paths whose common parent is the root are absolute)"]
 REQUIRED_MONITORS = ["abs-path", "rel-path", "traversal", "find"]
 
-NAMES = ["a", "ab", "A", "a b", "Ab", "b", "ba", "abcd", "abc", "a.b", "AB"]
+NAMES = ["a", "ab", "A", "a b", "Ab", "b", "ba", "abcd", "abc", "a.b", "AB",
+         # names that are patterns to a matcher (shell wildcards, regular expressions) but plain names to odML
+         "a*", "[ab]", "a?", "a.", "ab[1]"]
 TYPES = ["t", "T/sub", "u", "stim/white_noise", "t", u"Stra\u00dfe", u"\u03a3\u03af\u03c3\u03c5\u03c6\u03bf\u03c2/sub"]
 
 
@@ -70,7 +72,8 @@ def build(shape, variant, with_props):
             counter[0] += 1
             s = odml.Section(nm, TYPES[(counter[0] + variant) % len(TYPES)], parent=parent)
             if with_props and (counter[0] + variant) % 2 == 0:
-                odml.Property(NAMES[(counter[0]) % len(NAMES)], values=[counter[0]], parent=s)
+                # every fifth Property holds no value (its value list is listed all the same)
+                odml.Property(NAMES[(counter[0]) % len(NAMES)], values=[counter[0]] if counter[0] % 5 else None, parent=s)
                 if (counter[0] + variant) % 3 == 0:
                     odml.Property("p:odd" if False else "q", values=["x", "y"], parent=s)
             rec(s, sub, depth + 1)
